@@ -27,6 +27,7 @@ RULES = {
     "R2.1": "sweep term == [n -> max_a Q(state_space[n], A[a])] with Q the documented expectation (values looked up through problem.state_to_index of the successor)",
     "R2.3": "extracted policy == [n -> ACTIONS[argmax_a Q(state_space[n], A[a])]] with the sweep's own Q at self.values, self.gamma",
     "R2.4": "every problem.* leaf call receives (state[sdim], action[adim], event[edim]) / a state vector, decided from dataflow",
+    "R2.6": "code traced by jax.pmap / jax.jit (the kernels) never reads mutable solver state through `self` (values, policy, gain, history, key, ...): such a read is baked in at trace time, so later sweeps would silently use stale values instead of the value vector passed as argument",
     "R2.5": "un-batching composes with batching to the identity on real states: no device/batch/slot index survives in the result",
 }
 ASSUMPTIONS = [
@@ -79,6 +80,8 @@ def run(ctx: Context, col) -> None:
     I, t = run_method(ctx, vi, "_initialize_values", [("batched", SS)])
     owner, fn = ctx.ct.require(vi, "_initialize_values")
     _leafs_and_unbatch(I, "Solver._initialize_values", owner, fn, col)
+    _traced_reads(ctx, col)
+    col.floor("R2.6", 20)
     col.floor("R2.1", 3)
     col.floor("R2.3", 5)
     col.floor("R2.4", 9)
@@ -98,3 +101,56 @@ def _leafs_and_unbatch(I, construct, owner, fn, col):
             "result is indexed by state n only: Batched(X)[d,b,k] := X[n] leaves no batch index" if not bad else
             f"a device/batch/slot index survives un-batching or the batched array is not the state space ({bad[0]})",
             text="un-batch composition")
+
+
+# frozen exemptions of R2.6: (class, function, attribute) -> reason
+TRACED_READ_OK = {
+    ("SemiAsyncValueIteration", "_calculate_updated_value_scan_state_batches", "batch_order"):
+        "always None in live code (C06 R6.6): the branch it guards is dead",
+}
+TRACERS = {"jax.pmap", "jax.jit", "pmap", "jit"}
+
+
+def _traced_reads(ctx, col):
+    import ast
+
+    from ..effects import is_self_attr
+    from .c09 import restore_paths, save_paths
+
+    for cls in ctx.solvers():
+        eff = ctx.effects(cls)
+        loop = ctx.solve_loop(cls)
+        _o, _f, spaths, _c = save_paths(ctx, cls)
+        _o2, _f2, rpaths, _x = restore_paths(ctx, cls)
+        mutable = set(loop.loop_carried()) | {k for k in spaths if not k.startswith("<")} | set(rpaths) | {"values", "policy", "iteration"}
+        methods = ctx.ct.methods_of(cls)
+        roots = {}
+        for _n, (owner, fn) in methods.items():
+            for a in ast.walk(fn):
+                if isinstance(a, ast.Assign) and isinstance(a.value, ast.Call) and ast.unparse(a.value.func) in TRACERS:
+                    for x in ast.walk(a.value):
+                        if is_self_attr(x) and x.attr in methods and not ctx.ct.is_property(cls, x.attr):
+                            r = ctx.ct.lookup(cls, x.attr)
+                            roots[(r[0].qualname, r[1].name)] = r
+        if len(roots) < 2:
+            raise AnalysisError(f"anchor vanished: {cls.name} binds {len(roots)} traced (pmap/jit) kernels")
+        seen = dict(roots)
+        stack = list(roots.values())
+        while stack:
+            o, f = stack.pop()
+            for o2, f2 in eff.callees(f, o):
+                k = (o2.qualname, f2.name)
+                if k not in seen and not ctx.ct.is_property(cls, f2.name):
+                    seen[k] = (o2, f2)
+                    stack.append((o2, f2))
+        for (_q, _name), (o, f) in sorted(seen.items()):
+            bad = []
+            for x in ast.walk(f):
+                if is_self_attr(x) and isinstance(x.ctx, ast.Load) and x.attr in mutable:
+                    if (cls.name, f.name, x.attr) in TRACED_READ_OK:
+                        continue
+                    bad.append(x)
+            col.add("R2.6", f"{cls.name}:{o.name}.{f.name}", o.module.relpath, (bad[0].lineno if bad else f.lineno), not bad,
+                    "traced kernel reads no mutable solver state through self" if not bad else
+                    f"`self.{bad[0].attr}` is read inside code traced by pmap/jit: its value at the first call is compiled in, later calls "
+                    f"ignore updates of self.{bad[0].attr} (use the argument passed into the kernel)", text=f"traced reads in {f.name}")
